@@ -15,7 +15,7 @@ from vmon.sched import Scheduler, INF, Deadlock
 from vmon.probes import OMBOTT_DIR
 
 RULE = ('request/handler kinds {echo (reads path, query, header, cookie; sets cookie, headers, status), post (reads body and forms), raised response, '
-        'abort, crash (500 page), 404, 405, oversized body (shared 413 object), redirect, lazy generator body} x ordered pairs of kinds x schedules: '
+        'abort, crash (500 page), 404, 405, oversized body (shared 413 object), redirect, lazy generator body, multipart upload (forms, files, fragmented stream), JSON body with signed cookies}, application-wide before/after hooks and a route hook that read and write the shared objects, x ordered pairs of kinds x schedules: '
         'all schedules with at most one preemption (quick) / at most two preemptions (thorough, for the listed pairs) at every statement of '
         'ombott/ and the handlers, plus seeded random multi-preemption schedules for 2 and 3 threads (each thread serving 1-2 requests). '
         'Non-trivial = at least one context switch happened while both threads were inside the framework; distinct = distinct (kinds, schedule).')
@@ -27,7 +27,7 @@ EXHAUSTIVE = {'quick': False, 'thorough': False,
 ASSUMPTIONS = ['statements inside the standard library are not preemption points; interleavings inside one statement are not explored',
                'every thread is a fresh thread or a worker serving requests one after another; the application object is the module default app (redirect needs it)']
 
-KINDS = ['echo', 'post', 'raise_resp', 'abort', 'crash', 'nf', 'na', 'big', 'redirect', 'gen']
+KINDS = ['echo', 'post', 'raise_resp', 'abort', 'crash', 'nf', 'na', 'big', 'redirect', 'gen', 'multipart', 'json']
 _APP = {}
 
 
@@ -104,6 +104,26 @@ def get_app():
         rs.status = 203
         return g()
 
+    def multipart():
+        f = rq.forms.get('t')
+        u = rq.files.get('up')
+        data = u.file.read() if u is not None else b''
+        rs.headers['X-Upload'] = getattr(u, 'raw_filename', '-')
+        again = rq.POST.get('t')
+        return '|'.join(map(str, (f, again, data, rq.content_type[:19], rq.query_string)))
+
+    def json_():
+        j = rq.json
+        rs.set_cookie('j', str(j.get('m')), secret='k')
+        return '|'.join(map(str, (j, rq.get_cookie('sj', secret='k'), rq.query.get('m'))))
+
+    # application-wide hooks read and write the shared objects too
+    app.add_hook('before_request', lambda: rs.headers.__setitem__('X-Hook-Before', rq.query_string + '@' + rq.path))
+    app.add_hook('after_request', lambda: rs.headers.__setitem__('X-Hook-After', rq.method + ' ' + rq.path + '?' + rq.query_string) if rs._headers is not None else None)
+    app.on_route('/echo', lambda prefix: rs.headers.__setitem__('X-Route-Hook', prefix + '|' + rq.query_string))
+
+    app.route('/mp', 'POST', multipart)
+    app.route('/json', 'POST', json_)
     app.route('/echo/<x>', 'GET', lambda x: echo() + '|' + x)
     app.route('/post', 'POST', post)
     app.route('/raise', 'GET', raise_resp)
@@ -136,6 +156,15 @@ def make_env(kind, m):
         return make_environ('POST', '/big', body=(m * 200).encode(), qs='m=' + m)
     if kind == 'redirect':
         return make_environ('GET', '/redirect', qs='m=' + m, headers={'Host': m + '.example'})
+    if kind == 'multipart':
+        body = ('--B\r\nContent-Disposition: form-data; name="t"\r\n\r\ntext-' + m + '\r\n--B\r\nContent-Disposition: form-data; name="up"; filename="' + m
+                + '.bin"\r\n\r\nDATA-' + m * 30 + '\r\n--B--\r\n').encode()
+        return make_environ('POST', '/mp', qs='m=' + m, body=body, content_type='multipart/form-data; boundary=B', stream=RecStream(body, ('list', [40, 40, 40])))
+    if kind == 'json':
+        from ombott.common_helpers import cookie_encode
+        body = ('{"m": "' + m + '", "l": [1, 2, 3]}').encode()
+        sj = cookie_encode(('sj', {'who': m}), 'k').decode()
+        return make_environ('POST', '/json', qs='m=' + m, body=body, content_type='application/json', headers={'Cookie': 'sj="' + sj + '"'})
     if kind == 'gen':
         return make_environ('GET', '/gen/' + m, qs='m=' + m, headers={'X-M': m})
     raise ValueError(kind)
@@ -212,7 +241,8 @@ class Lab:
         return info if ok else None
 
 
-PAIRS_QUICK = [('echo', 'echo'), ('echo', 'post'), ('raise_resp', 'echo'), ('crash', 'abort'), ('big', 'big'), ('nf', 'redirect'), ('gen', 'echo'), ('na', 'post')]
+PAIRS_QUICK = [('echo', 'echo'), ('echo', 'post'), ('raise_resp', 'echo'), ('crash', 'abort'), ('big', 'big'), ('nf', 'redirect'), ('gen', 'echo'), ('na', 'post'),
+               ('multipart', 'json'), ('json', 'echo')]
 
 
 def one_preemption(ctx, lab, a, b, stride=1):
@@ -300,7 +330,7 @@ def plan(tier, seed):
     if tier == 'quick':
         return [{'kind': 'pairs', 'pairs': [p]} for p in PAIRS_QUICK] + [{'kind': 'random', 'n': 500, 'sub': i} for i in range(4)]
     allpairs = [(a, b) for a in KINDS for b in KINDS]
-    units = [{'kind': 'pairs', 'pairs': allpairs[i::24]} for i in range(24)]
+    units = [{'kind': 'pairs', 'pairs': allpairs[i::36]} for i in range(36)]
     two = [('echo', 'echo'), ('echo', 'post'), ('post', 'echo'), ('raise_resp', 'abort'), ('abort', 'crash'), ('crash', 'echo'), ('big', 'big'), ('big', 'post'),
            ('nf', 'na'), ('na', 'redirect'), ('redirect', 'gen'), ('gen', 'raise_resp')]
     for p in two:
